@@ -27,6 +27,7 @@ import (
 
 type reinitStats struct {
 	Ops, Scenarios, Reinits, HashEdits, HashEditKinds int
+	ReinitCrashEffects, ReinitCrashRuns              int
 	OutcomeHist                                       map[string]int
 	Monitors, Notes, Samples                          []string
 }
@@ -424,6 +425,10 @@ func runReinitDiff(outDir string, seed int64, tier string) {
 	}
 	for _, c := range cfgs {
 		r.scenario(outDir, c.n, c.t, c.interleave, c.junk, c.adapt)
+	}
+	r.crashInReinit(outDir, 2, 2, tier == "thorough")
+	if tier == "thorough" {
+		r.crashInReinit(outDir, 3, 2, true)
 	}
 	r.ops.Flush()
 	r.obs.Flush()
